@@ -562,6 +562,11 @@ def parse_options_header(value: str | None) -> tuple[str, dict[str, str]]:
         if match:
             # key*0=a; key*1=b becomes key=ab
             pk = pk[: match.start()]
+
+            if not pk:
+                # Only continuation markers, no name, is invalid.
+                continue
+
             options[pk] = options.get(pk, "") + pv
         else:
             options[pk] = pv
